@@ -40,7 +40,7 @@ CASES = [
     (r'lenders\..*', r'.*', ['lenders', 'lenders_selfcons']),
     (r'rank9', r'.*', ['rank9']),
     (r'rank_small.*', r'.*', ['rank_all']),
-    (r'bfv\.copy.*', r'.*', ['bfv_copy']),
+    (r'bf[vs]\.copy.*', r'.*', ['bfv_copy']),
     (r'bfv\.unaligned.*', r'.*', ['bfv_unaligned']),
     (r'bfv\.apply.*', r'.*', ['bfv_apply']),
     (r'bfv\..*', r'.*', ['bfv_ops', 'bfv_copy', 'bfv_misc']),
